@@ -55,14 +55,14 @@ def run(ctx):
         ctx.broken_ties.append("harness e1/wire_test.go does not compile against the current tree")
         corr_broken.append("wire harness build")
     else:
-        run_wire(ctx, binp, corr_broken, ctx.budget(2500, 40000))
+        run_wire(ctx, binp, corr_broken, ctx.budget(8000, 60000))
     # --- end-to-end oracle (network API + white-box quiescence only) ----------------------------
     ebin = ctx.go_test_binary("nsqd", ["e1/e2e_test.go"], "e1e2e")
     if not ebin:
         ctx.broken_ties.append("end-to-end oracle e1/e2e_test.go does not compile against the current tree")
         corr_broken.append("e2e harness build")
     else:
-        run_e2e(ctx, ebin, corr_broken, combos=ctx.budget(12, 0), n=ctx.budget(40, 30))
+        run_e2e(ctx, ebin, corr_broken, combos=ctx.budget(24, 0), n=ctx.budget(40, 30))
     # --- search phase ---------------------------------------------------------------------------
     if (ctx.broken_ties or corr_broken) and not ctx.violations:
         ctx.log("tie/correspondence broken without an oracle failure: searching with a larger budget")
@@ -142,16 +142,67 @@ def wire_oracle(op, impl):
         ft, d = int(w[1]), unhex(w[2])
         if unhex(impl) != be(len(d) + 4, 4) + be(ft % 2 ** 32, 4) + d:
             return "SendFramedResponse(type %d, %d bytes) wrote a frame that is not size(len+4) type data" % (ft, len(d))
-    elif kind == "mpub" and impl.startswith("ok "):
-        # accepted ⇒ the stream is count + (len, body)*, bodies returned exactly
-        s = unhex(w[3])
-        parts = impl.split()
-        bodies = [unhex(x) for x in parts[2].split(",")] if parts[2] != "-" else []
-        rest = int(parts[3].split("=")[1])
-        ser = be(len(bodies), 4) + b"".join(be(len(b), 4) + b for b in bodies)
-        if s[:len(s) - rest] != ser:
-            return "readMPUB returned bodies that are not the ones sent (count %d)" % len(bodies)
+    elif kind == "mpub":
+        want = mpub_expect(unhex(w[3]), int(w[1]), int(w[2]))
+        if impl != want:
+            return ("readMPUB (max-msg-size %s, max-body-size %s) answered `%s`; the batch as written is `%s`"
+                    % (w[1], w[2], impl[:120], want[:120]))
+    elif kind in ("textmpub", "textmpubcl"):
+        want = textmpub_expect(unhex(w[3]), int(w[1]), int(w[2]), kind == "textmpubcl")
+        if impl != want:
+            return ("/mpub text (max-msg-size %s, max-body-size %s) answered `%s`; the body as written is `%s`"
+                    % (w[1], w[2], impl[:120], want[:120]))
     return None
+
+
+def i32(b):
+    return int.from_bytes(b, "big", signed=True)
+
+
+def hexlist(bs):
+    return ",".join(b.hex() or "-" for b in bs) if bs else "-"
+
+
+def mpub_expect(s, max_msg, max_body):
+    """What the MPUB body format says about the byte string `s` (count, then length-prefixed
+    bodies; limits) — written from the protocol description, independently of the Lean model."""
+    if len(s) < 4:
+        return "E_BAD_BODY"
+    n = i32(s[:4])
+    lim = (max_body - 4) // 5 if max_body >= 4 else -((4 - max_body) // 5)
+    if n <= 0 or n > lim:
+        return "E_BAD_BODY"
+    pos, bodies = 4, []
+    for _ in range(n):
+        if len(s) - pos < 4:
+            return "E_BAD_MESSAGE"
+        sz = i32(s[pos:pos + 4])
+        pos += 4
+        if sz <= 0 or sz > max_msg or len(s) - pos < sz:
+            return "E_BAD_MESSAGE"
+        bodies.append(s[pos:pos + sz])
+        pos += sz
+    return "ok %d %s rest=%d" % (len(bodies), hexlist(bodies), len(s) - pos)
+
+
+def textmpub_expect(s, max_msg, max_body, content_length_known):
+    if content_length_known and len(s) > max_body:
+        return "BODY_TOO_BIG"
+    pieces = s[:max_body + 1].split(b"\n")
+    # an over-long body is an error, but an over-long piece met before the limit is reported first
+    total = 0
+    out = []
+    for k, p in enumerate(pieces):
+        last = k == len(pieces) - 1
+        total += len(p) + (0 if last else 1)
+        if total == max_body + 1:
+            return "BODY_TOO_BIG"
+        if not p:
+            continue
+        if len(p) > max_msg:
+            return "MSG_TOO_BIG"
+        out.append(p)
+    return "ok %d %s" % (len(out), hexlist(out))
 
 
 def run_e2e(ctx, ebin, corr_broken, combos, n, search=False):
